@@ -113,9 +113,15 @@ fn op_render(payload: &str) -> String {
     if f.len() < 5 {
         return "{\"error\":\"bad payload\"}".into();
     }
-    let tree = match parse_doc(f[0], f[1]) {
-        Ok(t) => t,
-        Err(e) => return format!("{{\"skip\":\"parse\",\"error\":{}}}", esc(&e)),
+    // a panic while *parsing* is C01's subject (parsing is total), not C02's: reported as a skip
+    let parsed = std::panic::catch_unwind(|| parse_doc(f[0], f[1]));
+    let tree = match parsed {
+        Ok(Ok(t)) => t,
+        Ok(Err(e)) => return format!("{{\"skip\":\"parse\",\"error\":{}}}", esc(&e)),
+        Err(e) => {
+            let loc = LAST_PANIC_LOC.with(|c| c.borrow().clone());
+            return format!("{{\"skip\":\"parse-panic\",\"panic\":{},\"at\":{}}}", esc(&panic_msg(e)), esc(&loc));
+        }
     };
     let w: u32 = f[2].parse().unwrap_or(0);
     let h: u32 = f[3].parse().unwrap_or(0);
